@@ -28,6 +28,7 @@ mod pure;
 mod rpc;
 mod sim;
 mod util;
+mod wire;
 
 use std::io::{BufRead, BufWriter, Write};
 
@@ -67,6 +68,7 @@ fn main() {
             eprintln!("vfh: {} runs, {} diverged steps", n, div);
         }
         "blk" => blk::run_file(&args[2], &args[3]),
+        "wire" => wire::run_file(&args[2], &args[3]),
         "fee" => pure::fee(&args[2], &args[3]),
         "tlv" => pure::tlv(&args[2], &args[3]),
         m => {
